@@ -445,6 +445,15 @@ class TSPkoptEnv(ImprovementEnvBase):
             == solution.data.sort(1)[0]
         ).all(), "Not visiting all nodes"
 
+        # following the successors from node 0 must reach every node: one cycle, no sub-tours
+        reached = torch.zeros_like(solution, dtype=torch.bool)
+        pre = torch.zeros(batch_size, dtype=torch.long, device=solution.device)
+        arange = torch.arange(batch_size, device=solution.device)
+        for _ in range(graph_size):
+            pre = solution[arange, pre]
+            reached[arange, pre] = True
+        assert reached.all(), "Not a single tour through all nodes"
+
     def get_mask(self, td):
         # return mask that is 1 if the corresponding action is feasible, 0 otherwise
         visited_time = td["visited_time"]
